@@ -185,10 +185,11 @@ def sym_input(eng, L, prefix):
     return mk([eng.sym_char(f"c{i}", prefix[i] if i < len(prefix) else SIGMA) for i in range(L)])
 
 
-def task_a(L, prefix="", idem=True):
+def task_a(L, prefix="", idem=True, tmpl=None):
     eng = Engine()
     rec = Recorder(eng)
-    s = sym_input(eng, L, prefix)
+    s = sym_input(eng, L, prefix) if tmpl is None else tmpl_input(eng, tmpl[0], tmpl[1], prefix)
+    L = len(chars(s))
     cs = chars(s)
     pos_of = {c.var.idx: i for i, c in enumerate(cs)} if L else {}
     worlds = eng.run(drv_a if idem else drv_a1, [s])
@@ -258,11 +259,26 @@ def task_a(L, prefix="", idem=True):
     return rec.result(L=L, worlds=len(worlds))
 
 
-def task_c(L, prefix=""):
+SIGMA_T = "{}\\ x~,"
+
+
+def tmpl_input(eng, l1, l2, prefix):
+    """X1 + ' and ' + X2 : the separator word is literal, the surroundings are symbolic (deeper brace/escape nesting)"""
+    cs = []
+    for i in range(l1):
+        cs.append(eng.sym_char(f"c{len(cs)}", prefix[i] if i < len(prefix) else SIGMA_T))
+    for ch in " and ":
+        cs.append(eng.sym_char(f"c{len(cs)}", ch))
+    for i in range(l2):
+        cs.append(eng.sym_char(f"c{len(cs)}", SIGMA_T))
+    return mk(cs)
+
+
+def task_c(L, prefix="", tmpl=None):
     eng = Engine()
     eng.interpret_also(ref_split, balanced)
     rec = Recorder(eng)
-    s = sym_input(eng, L, prefix)
+    s = sym_input(eng, L, prefix) if tmpl is None else tmpl_input(eng, tmpl[0], tmpl[1], prefix)
     worlds = eng.run(drv_c, [s])
     for W in worlds:
         if W.exc is not None:
@@ -327,6 +343,18 @@ def main():
         spread("conserve+idem", task_a, L, LI)
     for L in range(LC, -1, -1):
         spread("exact", task_c, L, LC)
+    # separator-centred family: X1 ' and ' X2
+    LT = 4 if chk.tier == "quick" else 5
+    chk.bounds["separator-centred family"] = f"X1 + ' and ' + X2, |X1|,|X2| <= {LT} over {SIGMA_T!r} (all three obligations)"
+    for l1 in range(LT, 0, -1):
+        for l2 in range(LT, 0, -1):
+            if l1 == LT and l2 >= LT - 1:
+                for a in SIGMA_T:
+                    chk.add_task(f"tmpl-exact-{l1}+{l2}-{a!r}", task_c, L=0, prefix=a, tmpl=(l1, l2))
+                    chk.add_task(f"tmpl-conserve-{l1}+{l2}-{a!r}", task_a, L=0, prefix=a, tmpl=(l1, l2), idem=(l1 + l2 <= 2 * LT - 2))
+            else:
+                chk.add_task(f"tmpl-exact-{l1}+{l2}", task_c, L=0, tmpl=(l1, l2))
+                chk.add_task(f"tmpl-conserve-{l1}+{l2}", task_a, L=0, tmpl=(l1, l2), idem=(l1 + l2 <= 2 * LT - 2))
     chk.run()
 
 
